@@ -288,7 +288,9 @@ def opOracle (op : Op) (out : Outc) (pre post : List Obs) (evs : List Evt) : Opt
       match findObs pre src, findObs post res with
       | some a, some b =>
         if a1alloc then some ("C07", "a byte buffer was allocated by a sharing operation")
-        else if (b.len > 0 || (checkEmpty && a.len > 0)) && a.blk.isSome then
+        -- an empty source only has a meaningful address when it owns storage (capacity, or reported unique):
+        -- empty non-owning handles carry stale pointers that may coincide with unrelated live blocks
+        else if (b.len > 0 || (checkEmpty && (a.len > 0 || (a.cap.getD 0) > 0 || a.uniq == some true))) && a.blk.isSome then
           (match addrOf a, addrOf b with
            | some (s, o), some (s', o') => if s == s' && o' == o + delta then none else some ("C07", s!"result handle {res} does not start at the source address + {delta}")
            | _, _ => some ("C07", s!"result handle {res} has no address"))
@@ -297,16 +299,19 @@ def opOracle (op : Op) (out : Outc) (pre post : List Obs) (evs : List Evt) : Opt
     match op, v with
     | .clone i, .handle j => if (findObs pre i).map (·.kind) == some .bytes then zeroCopy i j 0 false else none
     | .slice i lo _, .handle j => zeroCopy i j lo false
-    | .splitOff i k, .handle j =>
-      (zeroCopy i j k ((findObs pre i).map (·.kind) == some .bytes)).orElse fun _ => zeroCopy i i 0 ((findObs pre i).map (·.kind) == some .bytes)
-    | .splitTo i k, .handle j =>
-      (zeroCopy i j 0 ((findObs pre i).map (·.kind) == some .bytes)).orElse fun _ => zeroCopy i i k ((findObs pre i).map (·.kind) == some .bytes)
+    -- split_off / split_to keep the address guarantee for empty results as well (Bytes and BytesMut)
+    | .splitOff i k, .handle j => (zeroCopy i j k true).orElse fun _ => zeroCopy i i 0 true
+    | .splitTo i k, .handle j => (zeroCopy i j 0 true).orElse fun _ => zeroCopy i i k true
     | .split i, .handle j => zeroCopy i j 0 false
     | .truncate i _, _ | .clear i, _ => if (findObs pre i).map (·.kind) != some .vec then zeroCopy i i 0 false else none
     | .advance i n, _ => zeroCopy i i n false
     | .freeze i, _ => zeroCopy i i 0 false
     | .fromVec i, _ => zeroCopy i i 0 false
-    | .tryIntoMut i, .handle _ => (zeroCopy i i 0 false).map fun (_, m) => ("C07+C08", m)
+    -- Ok means the handle was unique, i.e. it owned its storage: the result is that same memory, also when the view is empty
+    | .tryIntoMut i, .handle _ => (zeroCopy i i 0 true).map fun (_, m) => ("C07+C08", m)
+    -- BytesMut::from(bytes) of a uniquely held buffer (is_unique was observed true just before) is the same conversion
+    | .intoMut i, .handle _ =>
+      if ((findObs pre i).bind (·.uniq)) == some true then (zeroCopy i i 0 true).map fun (_, m) => ("C07+C08", m) else none
     | .unsplit i j, _ =>
       -- adjacent halves: no copy
       match findObs pre i, findObs pre j with
@@ -379,7 +384,9 @@ def judgeBlock (s : JS) : IO JS := do
   | some e => emit s true s!"oracle-fail C02 op={opw.headD "?"} what=allocator_violation_kind_{e.bad}_(1_unknown_block,2_wrong_layout,3_red_zone,4_write_after_free)"
   | none =>
   match boundsOracle b.obs with
-  | some (p, msg) => emit s true s!"oracle-fail {p} op={opw.headD "?"} what={msg.replace " " "_"}"
+  | some (p, msg) =>
+    -- after a panicking call this is also "a panic leaves every handle intact and usable"
+    emit s true s!"oracle-fail {if out == Outc.panic then p ++ "+C13" else p} op={opw.headD "?"} what={msg.replace " " "_"}"
   | none =>
   -- C01: contents against the independent-Vec reference model
   let spec' := match out with | .ok v => Spec.stepOk op v s.spec | .panic => Spec.stepPanic op s.spec
